@@ -10,8 +10,7 @@ import Mathlib.Algebra.Order.Ring.Rat
 The `pandas.DataFrame` is modelled as a plain labelled table: the column labels, and the rows in
 order, each with its row label and its cells.  A cell is a token: a finite float (as the exact
 rational), `±inf`, a string, or `NaN` (the "no entry" of `pd.concat`; `show()` ends with
-`fillna('-')`, so no `NaN` survives in the table of a `SOCProg` / `GCProg`; the table of a plain
-`LinProg` is `showlc()` alone and never has one).
+`fillna('-')`, so no `NaN` survives in the table).
 
 What the code puts where (checked cell by cell by `test_show.py`):
 * `LC` rows: `linear.todense()` — *every* column, stored or not, `0.0` where nothing is stored —, then
@@ -151,10 +150,14 @@ def showConic (withEc : Bool) (vt : List String) : Table :=
   let table := table.concat [ubRow P, lbRow P, typeRow vt]
   table.fillna "-"
 
-/-- the DataFrame returned by `formula.show()` -/
+/-- the program as a `LinProg` object holds it: no cone lists -/
+def linOnly : ConeProg ℚ := { P with qmat := [], xmat := [] }
+
+/-- the DataFrame returned by `formula.show()`; `LinProg.show()` is `SOCProg.show()` without the cone block
+(objective row, linear rows, bounds, types) -/
 def showTable (k : Kind) (vt : List String) : Table :=
   match k with
-  | .lin => showlc P
+  | .lin => showConic (linOnly P) false vt
   | .soc => showConic P false vt
   | .gcp => showConic P true vt
 
@@ -238,17 +241,17 @@ def countSort (nc : ℕ) (t : List ℕ) : List ℕ :=
 (`‖x_tail‖ ≤ x_head` does not depend on the order of the tail) -/
 def normCone (nc : ℕ) (q : List ℕ) : List ℕ := q.take 1 ++ countSort nc q.tail
 
-/-- the data of the formula object that its table determines: for `LinProg.show` the linear rows only;
-for the conic classes also objective, bounds, types and cones (`SOCProg` has no `xmat`). The CSR
+/-- the data of the formula object that its table determines: the linear rows, objective, bounds and types;
+for the conic classes also the cones (`LinProg` has none, `SOCProg` has no `xmat`). The CSR
 *pattern* `P.st` (explicit zeros versus missing entries) is not part of it. -/
 def toData (k : Kind) (vt : List String) : ShowData where
-  obj := if k = .lin then none else some ((List.range P.lp.nc).map P.lp.c)
+  obj := some ((List.range P.lp.nc).map P.lp.c)
   rows := (List.range P.lp.nr).map fun i => ((List.range P.lp.nc).map (P.lp.a i), P.lp.eq i, P.lp.b i)
   qcones := if k = .lin then [] else P.qmat.map (normCone P.lp.nc)
   xcones := if k = .gcp then P.xmat else []
-  ub := if k = .lin then none else some ((List.range P.lp.nc).map P.lp.ub)
-  lb := if k = .lin then none else some ((List.range P.lp.nc).map P.lp.lb)
-  vtype := if k = .lin then none else some vt
+  ub := some ((List.range P.lp.nc).map P.lp.ub)
+  lb := some ((List.range P.lp.nc).map P.lp.lb)
+  vtype := some vt
 
 /-! ## hypotheses -/
 
